@@ -25,7 +25,7 @@ RULE = ("(template, substrate, direction, strategy, hydrogen mode) with template
         "hand-made rule, or a synthetic ITS graph planted on a random host; non-trivial = at least one glued result and a "
         "template with >= 2 changed bonds; distinct = distinct (template, substrate, configuration)")
 EXHAUSTIVE = {"quick": False, "thorough": False}
-EXPLANATION = ("79 theorems (coq/props/C03.v) about the Gallina model of SynReactor._glue_graph/_node_glue, _invert_template, _explicit_h, "
+EXPLANATION = ("83 theorems (coq/props/C03.v) about the Gallina model of SynReactor._glue_graph/_node_glue, _invert_template, _explicit_h, "
                "h_to_explicit and SynRule.__init__ (implicit-template mode; default mode for templates without explicit H atoms): for every host, rule and valid match the reactant side of the glued ITS "
                "(on its_decompose, what _to_smarts serialises) is the substrate; element counts incl. hydrogen and total charge agree on both "
                "sides for a balanced rule (and differ by exactly the rule's imbalance otherwise); changed bonds = image of the rule's bonds with "
@@ -1159,7 +1159,7 @@ def gen_cases(tier, rng):
     return prepare_all(cases)
 
 
-LEVEL_TEXT = ("Machine-checked proof (Coq, 79 theorems, all closed under the global context) over an executable model of gluing a rule onto a "
+LEVEL_TEXT = ("Machine-checked proof (Coq, 83 theorems, all closed under the global context) over an executable model of gluing a rule onto a "
               "substrate along a match (SynReactor._glue_graph/_node_glue), _invert_template, _explicit_h, h_to_explicit and SynRule.__init__ "
               "(implicit-template mode; default mode for templates without explicit hydrogen atoms): for EVERY substrate graph, rule graph and valid match (boolean hypotheses wf_hostb, wf_rcb, match_rcb) "
               "(a) the reactant molecule graph of the glued ITS is the substrate (same atoms in the same order, same bonds), (b) every element "
@@ -1192,7 +1192,12 @@ LEVEL_TEXT = ("Machine-checked proof (Coq, 79 theorems, all closed under the glo
               "glued graphs). Capstone C03_its_list_instances / C03_reads_return_instances: for well-formed inputs and valid matcher answers (call_okb, evaluated on "
               "every scripted case) EVERY graph its_list returns — explicit stage on or off, direct or hydrogen-expanded route, any visiting order, whatever was "
               "read before — is a glued graph (optionally after _explicit_h) whose reactant side has the substrate's element counts, charge and bonds, which is "
-              "balanced if the rule is, and whose changed bonds are the images of the rule's plus only the in-group bonds of re-materialised hydrogens.")
+              "balanced if the rule is, and whose changed bonds are the images of the rule's plus only the in-group bonds of re-materialised hydrogens. "
+              "C03_default_reactor_total: in the default mode, forwards and backwards, for every template that satisfies the evaluated boolean default_tpl_okb "
+              "(true on 82 % of the default-mode runs of the quick tier), every well-formed substrate and every matcher that keeps its contract, the reactor "
+              "never raises (C03_default_glued_exact: every hydrogen-transfer group is exact, via a hydrogen ledger), every read returns the specified value, "
+              "and every graph returned is a balanced instance of the prepared rule. The same end to end for the implicit-template mode "
+              "(C03_its_list_implicit_end_to_end) and SynRule objects applied backwards (C03_its_list_synrule_object_backward).")
 LEVEL_NOTE = ("Trusted: Coq kernel + vm_compute; the hand-written model, the statement vocabulary (proof/C03_Spec.v) and the harness encoders; RDKit "
               "parsing and VF2 matching are oracle inputs (every mapping used is re-validated by the model's match_okb / match_rcb and the theorems' "
               "hypotheses are recomputed on every case). Modelled and compared but NOT proved: default-mode rule preparation (_strip_explicit_h), "
